@@ -436,6 +436,19 @@ static void h_op(void)
     onefetch(tool_go, fp, k, sqfp);      /* esl-sfetch: PositionByKey + Read + Echo; esl_fatal() (process exit) on any error */
     op_file_hex(fp, "toolfetch"); fclose(fp); free(k);
   }
+  else if (!strcmp(op, "toolmulti") || !strcmp(op, "toolmultisub")) {
+    /* esl-sfetch -f <keyfile> / -Cf <gdffile>: the tool's own loops over a key file (written from the op's text= argument) */
+    int64_t n; unsigned char *txt; FILE *fp, *kf; int saved; int sub = !strcmp(op, "toolmultisub");
+    if (!sqfp->data.ascii.ssi) { h_out("bad-op"); return; }
+    if (!tool_go) { char *argv[3] = { "esl-sfetch", "f", "k" }; tool_go = esl_getopts_Create(options); esl_opt_ProcessCmdline(tool_go, 3, argv); }
+    txt = h_unhex(h_arg("text") ? h_arg("text") : "-", &n);
+    kf = fopen("t.keys", "wb"); fwrite(txt, 1, n, kf); fclose(kf); free(txt);
+    fp = tmpfile();
+    quiet_begin(&saved);                     /* multifetch() reports "Retrieved n sequences" on stdout */
+    if (sub) multifetch_subseq(tool_go, fp, "t.keys", sqfp); else multifetch(tool_go, fp, "t.keys", sqfp);
+    quiet_end(saved);
+    op_file_hex(fp, op); fclose(fp); remove("t.keys");
+  }
   else if (!strcmp(op, "toolsub")) {
     int64_t n; char *k; FILE *fp;
     if (!sqfp->data.ascii.ssi) { h_out("bad-op"); return; }
